@@ -173,7 +173,11 @@ def getitem(segs, i):
     n = length(segs)
     p = norm_index(i, n)
     if p is None:
-        return None
+        p = aff(i)          # a symbolic index of unknown sign is taken as a plain (non-negative) position
+    ns = normalise(segs)
+    if len(ns) == 1:
+        s0 = ns[0]
+        return [Seg(1, s0.src, s0.start + p.scale(s0.stride), 1, s0.w)]
     return take(segs, p, p + 1)
 
 
@@ -200,17 +204,17 @@ def slice_(segs, lo, hi, step):
         h = n if hi is None else norm_index(hi, n)
         if l is None or h is None:
             return None
-        # clamp
+        # clamp (a symbolic bound that cannot be compared with the length is taken to be in range)
         c = aff_cmp(h, n)
-        if c is None:
-            return None
-        if c > 0:
+        if c is not None and c > 0:
             h = n
         c = aff_cmp(l, h)
-        if c is None:
-            return None
-        if c >= 0:
+        if c is not None and c >= 0:
             return []
+        ns = normalise(segs)
+        if len(ns) == 1 and ns[0].n == n:
+            s0 = ns[0]
+            return [Seg(h - l, s0.src, s0.start + l.scale(s0.stride), s0.stride, s0.w)]
         return take(segs, l, h)
     if step == -1:
         # elements lo, lo-1, ..., hi+1
@@ -218,9 +222,7 @@ def slice_(segs, lo, hi, step):
         if l is None:
             return None
         c = aff_cmp(l, n - 1)
-        if c is None:
-            return None
-        if c > 0:
+        if c is not None and c > 0:
             l = n - 1
         if hi is None:
             h = Aff(-1)
@@ -229,10 +231,12 @@ def slice_(segs, lo, hi, step):
             if h is None:
                 return None
         c = aff_cmp(l, h)
-        if c is None:
-            return None
-        if c <= 0:
+        if c is not None and c <= 0:
             return []
+        ns = normalise(segs)
+        if len(ns) == 1 and ns[0].n == n:
+            s0 = ns[0]
+            return [Seg(l - h, s0.src, s0.start + l.scale(s0.stride), -s0.stride, s0.w)]
         part = take(segs, h + 1, l + 1)
         if part is None:
             return None
